@@ -59,7 +59,8 @@ class IntegerNode(BaseNode, SelectNode):
                 self.value_raw = s.solve(self.value_fn, self.units_raw)
         if self.value_expr: # Process expression
             with NumericalSolver(env) as s:
-                self.value_raw = np.round(s.solve(self.value_expr, self.units_raw))
+                # kept in raw (text) form like every other raw value: a result of 0 is a value
+                self.value_raw = self.raw_value(np.round(s.solve(self.value_expr, self.units_raw)), True)
         # Testing validity of units
         if self.units_raw:
             with UnitEnvironment(env.units):
